@@ -102,10 +102,9 @@ def get_or_formula(relation: Relation) -> str:
 def get_alternative_formula(relation: Relation) -> str:
     formula = []
     parent = relation.parent.name
-    children = {child.name for child in relation.children}
+    children = [child.name for child in relation.children]
     for child in children:
-        children_negatives = children - {child}
-        children_neg_str = [f"{PLWriter.LogicConnective.NOT}" + ch for ch in children_negatives]
+        children_neg_str = [f"{PLWriter.LogicConnective.NOT} {ch}" for ch in children if ch != child]
         formula.append(f'{child} {PLWriter.LogicConnective.EQUIVALENCE} '
                        f'({f" {PLWriter.LogicConnective.AND} ".join(children_neg_str)} '
                        f'{PLWriter.LogicConnective.AND} {parent})')
@@ -113,40 +112,30 @@ def get_alternative_formula(relation: Relation) -> str:
 
 
 def get_mutex_formula(relation: Relation) -> str:
-    formula = []
-    parent = relation.parent.name
-    children = {child.name for child in relation.children}
-    for child in children:
-        children_negatives = children - {child}
-        children_neg_str = [f"{PLWriter.LogicConnective.NOT}" + cn for cn in children_negatives]
-        formula.append(f'{child} {PLWriter.LogicConnective.EQUIVALENCE} '
-                       f'({f" {PLWriter.LogicConnective.AND} ".join(children_neg_str)} '
-                       f'{PLWriter.LogicConnective.AND} {parent})')
-    formula_str = f" {PLWriter.LogicConnective.AND} ".join(f'({f})' for f in formula)
-    or_children = f" {PLWriter.LogicConnective.OR} ".join(child for child in children)
-    return f'({parent} {PLWriter.LogicConnective.EQUIVALENCE} ' \
-           f'{PLWriter.LogicConnective.NOT}({or_children})) ' \
-           f'{PLWriter.LogicConnective.OR} ({formula_str})'
+    # No child is selected, or exactly one child is selected together with the parent
+    children = [child.name for child in relation.children]
+    or_children = f" {PLWriter.LogicConnective.OR} ".join(children)
+    return f'({PLWriter.LogicConnective.NOT} ({or_children})) ' \
+           f'{PLWriter.LogicConnective.OR} ({get_alternative_formula(relation)})'
 
 
 def get_cardinality_formula(relation: Relation) -> str:
     parent = relation.parent.name
-    children = {child.name for child in relation.children}
+    children = [child.name for child in relation.children]
     or_ctc = []
     for k in range(relation.card_min, relation.card_max + 1):
-        combi_k = list(itertools.combinations(children, k))
-        for positives in combi_k:
-            negatives = children - set(positives)
-            negatives_str = [f"{PLWriter.LogicConnective.NOT}" + f for f in negatives]
-            positives_and_ctc = f'{f" {PLWriter.LogicConnective.AND} ".join(positives)}'
-            negatives_and_ctc = f'{f" {PLWriter.LogicConnective.AND} ".join(negatives_str)}'
-            if positives_and_ctc and negatives_and_ctc:
-                and_ctc = f'{positives_and_ctc} {PLWriter.LogicConnective.AND} {negatives_and_ctc}'
-            else:
-                and_ctc = f'{positives_and_ctc}{negatives_and_ctc}'
-            or_ctc.append(and_ctc)
-    formula_or_ctc = f'{f" {PLWriter.LogicConnective.OR} ".join(or_ctc)}'
-    return f'{parent} {PLWriter.LogicConnective.EQUIVALENCE} {formula_or_ctc}'
+        for positives in itertools.combinations(children, k):
+            negatives_str = [f"{PLWriter.LogicConnective.NOT} {f}" for f in children
+                             if f not in positives]
+            and_ctc = f" {PLWriter.LogicConnective.AND} ".join(list(positives) + negatives_str)
+            or_ctc.append(f'({and_ctc})')
+    formula_or_ctc = f" {PLWriter.LogicConnective.OR} ".join(or_ctc)
+    none_selected = f" {PLWriter.LogicConnective.AND} ".join(
+        f"{PLWriter.LogicConnective.NOT} {f}" for f in children)
+    # The parent with a valid selection of children, or neither the parent nor any child
+    return f'({parent} {PLWriter.LogicConnective.AND} ({formula_or_ctc})) ' \
+           f'{PLWriter.LogicConnective.OR} ' \
+           f'({PLWriter.LogicConnective.NOT} {parent} {PLWriter.LogicConnective.AND} {none_selected})'
 
 
 def get_constraint_formula(ctc: Constraint) -> str:
